@@ -224,6 +224,7 @@ func replayConnCase(kr *keyring, c *connCase, parked, byref bool) (diff string) 
 		"CCS":     {20, 3, 3, 0, 1, 1},
 		"HSother": {22, 3, 3, 0, 5, 11, 0, 0, 1, 0},
 		"ALERT":   {21, 3, 3, 0, 2, 1, 0},
+		"ALERTF":  {21, 3, 3, 0, 2, 2, 40}, // fatal alert: level 2 is also the ServerHello message type
 		"APP":     append([]byte{23, 3, 3, 0, 19}, bytes.Repeat([]byte{0xEE}, 19)...),
 		"ZERO":    {22, 3, 3, 0, 0},
 		"ZEROAPP": {23, 3, 3, 0, 0},
